@@ -82,6 +82,12 @@ func statelessTerm(r *prng.R) *Term {
 	if r.Chance(1, 3) {
 		body = &Term{K: TCombine, RecvCtr: -1, A: body, B: chain(1, leaf(TNormal))}
 	}
+	if body.K == TBind && r.Bool() {
+		// the loop body is a Bind constructed eagerly, outside every thunk: the Bind VALUE itself
+		// is shared by all iterators started from this Seq (every iteration yields, so no fuel issue)
+		body.Val.Tag = 0 // no effect at construction: the reference constructs per run, the shared value once
+		return &Term{K: TLoop, RecvCtr: -1, A: body}
+	}
 	return &Term{K: TLoop, RecvCtr: -1, A: &Term{K: TDelay, RecvCtr: -1, Th: &Thunk{Pre: eff(), Ret: body}}}
 }
 
@@ -162,7 +168,8 @@ func evalSolo(c *Case) Verdict {
 			return Verdict{Skip: "fuel"}
 		}
 		got := renumber(ProjectHandle(inter.Hist, h), 0)
-		if v := diffVerdict(fmt.Sprintf("solo(h%d)", h), solo.Hist, got); v.Class != "" {
+		// (both sides projected: effects of constructing a shared Seq value belong to no iterator)
+		if v := diffVerdict(fmt.Sprintf("solo(h%d)", h), renumber(ProjectHandle(solo.Hist, 0), 0), got); v.Class != "" {
 			return v
 		}
 	}
